@@ -196,8 +196,6 @@ def promised (ns : Bool) : EditOp → T → Bool
   | .reroot _, t => ns && !t.rooted
   | .rerootFirst, t => ns && !t.rooted
   | .removeSingle, _ => true
-  -- an applied NNI keeps a binary tree binary; nothing is proved about single-child nodes otherwise
-  | .nni _ undo, t => ns && (undo || t.binary)
   | _, _ => ns
 
 /-- What an operation may assume (the property's quantifier): pruning only has to cope with
